@@ -68,6 +68,15 @@ func VerifC09Chain(nl, ll, k int) {
 	for i := 0; i < k; i++ {
 		b = append(b, 0xc0, byte(1+ll))
 	}
+	if k == 0 {
+		// without pointers this family has a much tighter bound: ONE name is being built and must
+		// be given up as soon as it exceeds 255 octets, so the work does not grow with the
+		// input at all beyond reading it (a decoder that first built the whole over-long name and
+		// only then measured it would be quadratic in the number of labels)
+		a0 := verifAllocBytes()
+		_, _ = FromBytes(b)
+		verifAssert(verifAllocBytes()-a0 <= 64*len(b)+70000, "an-overlong-name-is-given-up-at-255-octets")
+	}
 	verifC09Check(b)
 }
 
